@@ -6,7 +6,7 @@
    remaining composition (builder's counting pass / backing arrays -> spec) is exercised by the
    correspondence run only.  See DESIGN.md 6 C01. *)
 From Coq Require Import List NArith.
-Require Import ZV.Bytes ZV.Kernel ZV.Streams ZV.Chunks.
+Require Import ZV.Bytes ZV.Kernel ZV.Streams ZV.Chunks ZV.Opt ZV.Spec ZV.Layout ZV.LayoutProof.
 Import ListNotations.
 Open Scope N_scope.
 
@@ -49,3 +49,24 @@ Theorem C01_chunk_index_in_table_partial : forall mode card maxDocs cs d,
   chunk_size_spec mode card maxDocs = (cs, false) -> d < maxDocs -> 0 < cs /\ d / cs < (maxDocs - 1) / cs + 1.
 Proof. exact chunk_index_in_table. Qed.
 Print Assumptions C01_chunk_index_in_table_partial.
+
+(* the frozen reader's postings decoder inverts the documented chunked encoding: if chunk c of the
+   freq/norm stream holds the entries of the hits whose document falls in chunk c (document order)
+   and chunk c of the location stream holds the location blocks of those hits that have locations -
+   which is what C01_chunked_coder_partial shows the writer's coder produces - then decoding the
+   postings of a strictly ascending list of well-formed hits returns exactly those hits, each with
+   its own frequency, norm (0 when the frequency is 0) and locations resolved to field names *)
+Theorem C01_postings_stream_roundtrip : forall ft cs, 0 < cs -> forall fch lch (hits : list (shit)),
+  (forall c, chunk_of fch c = F cs c hits) -> (forall c, chunk_of lch c = Lb cs c hits) ->
+  Sorted.StronglySorted N.lt (map fst hits) -> Forall wf_hit hits ->
+  decode_hits ft cs fch lch (map fst hits) (None, [], []) = Opt.mapopt (spec_hit ft) hits.
+Proof. exact postings_stream_roundtrip. Qed.
+Print Assumptions C01_postings_stream_roundtrip.
+
+(* the framing of a chunked stream (uvarint nChunks, cumulative end offsets, data) read at its offset *)
+Theorem C01_chunked_stream_framing : forall (pre : bytes) chunks rest,
+  pre <> [] -> N.of_nat (length chunks) < max_count ->
+  Forall u64 (LayoutProof.cum_from 0 (map nlenb chunks)) ->
+  stream_chunks (pre ++ enc_stream chunks ++ rest) (N.of_nat (length pre)) = Some chunks.
+Proof. exact chunked_stream_roundtrip. Qed.
+Print Assumptions C01_chunked_stream_framing.
